@@ -2,4 +2,5 @@ SPECIFICATION ISpec
 INVARIANT TypeOK
 INVARIANT NoSharedSecret
 INVARIANT NoNonceReuse
+INVARIANT ReconfiguredFresh
 CHECK_DEADLOCK FALSE
